@@ -64,9 +64,8 @@ Proof. reflexivity. Qed.
 Lemma header_matches_refl roots : header_matches roots 1 roots = true.
 Proof.
   unfold header_matches. rewrite !N.eqb_refl. cbn [andb].
-  assert (H : forallb (roots_contains roots) roots = true).
-  { apply forallb_forall. intros x Hx. unfold roots_contains. apply existsb_exists.
-    exists x. split; [exact Hx|apply bytes_eqb_refl]. }
+  assert (H : forallb (fun r => roots_count roots r =? roots_count roots r) roots = true).
+  { apply forallb_forall. intros x _. apply N.eqb_refl. }
   destruct roots as [|a [|b t]]; [reflexivity|apply bytes_eqb_refl|exact H].
 Qed.
 
